@@ -562,6 +562,10 @@ fn cmd_search() {
         let specs = parts.get(2).map_or("d1", |s| s.trim()).to_string();
         println!("BEGIN {k}");
         TRANSPOSITION_TABLE.write().unwrap().clear();
+        // what the cache must contain according to the OBSERVED writes (key -> score, depth, bound, move): compared with the real
+        // table after every search, so that a write path without an observer call (or an in-place update) cannot go unnoticed
+        let mut expected: std::collections::HashMap<u64, (i16, u8, u8, String)> = std::collections::HashMap::new();
+        let mut expected_valid = true;
         let setup = catch_unwind(AssertUnwindSafe(|| {
             let mut b = Board::from_fen(&fen);
             for m in moves.split_whitespace() {
@@ -681,6 +685,38 @@ fn cmd_search() {
             crate::search::verif::SKEW_MS.store(0, std::sync::atomic::Ordering::SeqCst);
             let trace = crate::search::verif::TRACE.lock().unwrap().take().unwrap_or_default();
             crate::search::verif::CACHE_OFF.store(false, std::sync::atomic::Ordering::Relaxed);
+            let mut tt_diff: i64 = -1;
+            let mut tt_diff_example = String::new();
+            if off || spec.contains('q') {
+                expected_valid = false; // the cache was emptied at every probe / the writes were not recorded: nothing to compare from here on
+            } else if expected_valid {
+                for w in &trace {
+                    let b = w.3;
+                    expected.insert(w.0, (w.1, w.2, b, enc_ply(&w.4)));
+                }
+                let tt = TRANSPOSITION_TABLE.read().unwrap();
+                let mut d = 0i64;
+                for (zk, e) in tt.iter() {
+                    let key = zk.verif_u64();
+                    let bcode: u8 = match e.bound {
+                        crate::board::transposition_table::Bounds::Exact => 0,
+                        crate::board::transposition_table::Bounds::Lower => 1,
+                        crate::board::transposition_table::Bounds::Upper => 2,
+                    };
+                    let got = (e.score, e.depth, bcode, enc_ply(&e.best_ply));
+                    if expected.get(&key) != Some(&got) {
+                        d += 1;
+                        if tt_diff_example.is_empty() {
+                            tt_diff_example = format!("key {key}: table {:?}, observed writes say {:?}", got, expected.get(&key));
+                        }
+                    }
+                }
+                if tt.len() != expected.len() && d == 0 {
+                    d = (tt.len() as i64 - expected.len() as i64).abs();
+                    tt_diff_example = format!("table holds {} entries, the observed writes {}", tt.len(), expected.len());
+                }
+                tt_diff = d;
+            }
             let (bm, bs, n, sd) = search.verif_result();
             // the legal moves of the searched position by the engine's own generator (so that the legality of the answer can be
             // judged on the engine alone, whatever move the model would have chosen)
@@ -705,7 +741,7 @@ fn cmd_search() {
                 })
                 .collect();
             println!(
-                "RESULT {{\"panic\":{},\"spec\":\"{}\",\"timer\":{},\"cut\":{},\"cut_loads\":{},\"cut_reads\":{},\"best\":{},\"score\":{},\"nodes\":{},\"seldepth\":{},\"legal\":[{}],\"writes\":[{}]}}",
+                "RESULT {{\"panic\":{},\"spec\":\"{}\",\"timer\":{},\"cut\":{},\"cut_loads\":{},\"cut_reads\":{},\"best\":{},\"score\":{},\"nodes\":{},\"seldepth\":{},\"tt_diff\":{},\"tt_diff_example\":\"{}\",\"legal\":[{}],\"writes\":[{}]}}",
                 r.is_err(),
                 spec,
                 timer,
@@ -716,6 +752,8 @@ fn cmd_search() {
                 bs.map_or("null".to_string(), |x| x.to_string()),
                 n,
                 sd,
+                tt_diff,
+                tt_diff_example.replace('"', "'"),
                 legal_txt,
                 writes.join(",")
             );
